@@ -61,6 +61,40 @@ pub struct SpEvent {
 
 pub type SpLog = Arc<Mutex<Vec<SpEvent>>>;
 
+/// Coarse shape of a sponge log, in the vocabulary of spec/Transcript.tla:
+/// "S" one short challenge squeezed, "F" full field elements squeezed, "A" an absorb,
+/// "I" a run of (squeeze bytes, absorb them) pairs = derivation of column indices.
+pub fn sponge_shape(log: &[SpEvent]) -> Vec<String> {
+    let mut raw: Vec<&'static str> = vec![];
+    for e in log {
+        match e.k {
+            "absorb" => raw.push("A"),
+            "squeeze_fe" if e.bits > 0 => {
+                for _ in 0..e.n.max(1) {
+                    raw.push("S")
+                }
+            }
+            "squeeze_fe" => raw.push("F"),
+            "squeeze_bytes" => raw.push("B"),
+            _ => raw.push("X"),
+        }
+    }
+    let mut out: Vec<String> = vec![];
+    let mut i = 0;
+    while i < raw.len() {
+        if raw[i] == "B" && i + 1 < raw.len() && raw[i + 1] == "A" {
+            if out.last().map(|x| x != "I").unwrap_or(true) {
+                out.push("I".into());
+            }
+            i += 2;
+        } else {
+            out.push(raw[i].into());
+            i += 1;
+        }
+    }
+    out
+}
+
 /// A sponge that delegates to a Poseidon sponge and logs every call.
 #[derive(Clone)]
 pub struct LogSponge<F: PrimeField> {
